@@ -6,6 +6,7 @@ package c04
 import (
 	"encoding/json"
 	"fmt"
+	"sort"
 	"strings"
 
 	"panmc/internal/core"
@@ -27,6 +28,8 @@ func init() {
 		},
 		Run:    run,
 		Replay: replay,
+		// one worker: the cross-form comparison needs the three forms of a case in the same process
+		Workers: 1,
 	})
 }
 
@@ -178,6 +181,9 @@ func valStr(e int) string {
 
 func (t tcase) src() string {
 	ch := t.Add + t.Main
+	if t.Kind == "xform" {
+		t.Kind = "list"
+	}
 	if t.Kind == "other" {
 		return otherSrc(t)
 	}
@@ -338,6 +344,21 @@ func gen(thorough bool, emit func(tcase)) {
 			})
 		}
 	}
+	// `~@` on arrays containing nil elements: only the agreement of the three forms is required
+	for _, f := range forms {
+		elemSeqs(maxN, true, func(es []int) {
+			hasNil := false
+			for _, e := range es {
+				if e == 0 {
+					hasNil = true
+				}
+			}
+			if hasNil {
+				emit(tcase{Kind: "xform", Main: "@", Add: "~", Form: f, Elems: es})
+				emit(tcase{Kind: "xform", Main: "@", Add: "~", Form: f, Elems: es, Arg: "[]"})
+			}
+		})
+	}
 	// reduce chains
 	for _, add := range adds {
 		for _, f := range forms {
@@ -492,6 +513,66 @@ func srcOf(t tcase) string {
 	return t.src()
 }
 
+// cross-form agreement: the three call forms must give the same observation in every context except the
+// lonely reduce chain (differential oracle, independent of the model; also covers `~@` on nil elements,
+// whose absolute result is a don't-care)
+type groupObs struct {
+	forms map[string]string
+	desc  map[string]string
+	cases map[string]tcase
+}
+
+var groups = map[string]*groupObs{}
+
+func groupKey(t tcase) string {
+	return fmt.Sprintf("%s|%s|%s|%v|%s|%s|%s", t.Kind, t.Main, t.Add, t.Elems, t.Arg, t.Recv, t.Var)
+}
+
+func crossForm(c *core.Ctx, t tcase, o panrun.Obs) {
+	if t.Kind == "digest" || (t.Kind == "reduce" && t.Add == "&") {
+		return
+	}
+	k := groupKey(t)
+	g := groups[k]
+	if g == nil {
+		g = &groupObs{forms: map[string]string{}, desc: map[string]string{}, cases: map[string]tcase{}}
+		groups[k] = g
+	}
+	g.forms[t.Form] = o.Key()
+	g.desc[t.Form] = strings.ReplaceAll(srcOf(t), "\n", "; ")
+	g.cases[t.Form] = t
+	want := 3
+	if t.Kind == "other" {
+		want = 2
+	}
+	if len(g.forms) < want {
+		return
+	}
+	c.Validated(1)
+	var names []string
+	for f := range g.forms {
+		names = append(names, f)
+	}
+	sort.Strings(names)
+	for _, f := range names[1:] {
+		if g.forms[f] != g.forms[names[0]] {
+			c.Violation(core.Violation{Key: "forms-disagree/chain" + t.Add + t.Main + "/" + names[0] + "-vs-" + f + nilTag(t), Case: core.JSON(g.cases[f]), Desc: g.desc[names[0]] + "   VS   " + g.desc[f],
+				Expected: names[0] + " form: " + g.forms[names[0]], Observed: f + " form: " + g.forms[f], Repro: prelude + "zz := {||\n" + srcOf(g.cases[f]) + "\n}\nzz().p\n"})
+			break
+		}
+	}
+	delete(groups, k)
+}
+
+func nilTag(t tcase) string {
+	for _, e := range t.Elems {
+		if e == 0 {
+			return "/nil-element"
+		}
+	}
+	return ""
+}
+
 func run(c *core.Ctx) {
 	n := 0
 	total := tk.Batched(c, 600, prelude, func(emit func(tcase)) { gen(c.Thorough(), emit) }, srcOf, func(t tcase, o panrun.Obs) {
@@ -499,9 +580,22 @@ func run(c *core.Ctx) {
 		if n%400 == 1 {
 			c.Sample(map[string]string{"source": srcOf(t), "kind": t.Kind, "form": t.Form})
 		}
+		if t.Kind == "xform" {
+			t2 := t
+			t2.Kind = "list"
+			crossForm(c, t2, o)
+			c.Validated(1)
+			c.Nontrivial(1)
+			c.Outcome("xform:" + o.Kind)
+			return
+		}
 		judge(c, t, o)
+		crossForm(c, t, o)
 	})
 	c.Note("cases_total", total)
+	if len(groups) > 0 && !c.Expired() {
+		c.HarnessError("%d cross-form groups are incomplete", len(groups))
+	}
 }
 
 func replay(c *core.Ctx, raw json.RawMessage) {
